@@ -473,7 +473,11 @@ impl IntrinsicOp {
             | RightShiftAssignment | BitwiseAndAssignment | BitwiseOrAssignment
             | BitwiseXorAssignment => {
                 assert_eq!(param_types.len(), 2);
-                assert_eq!(param_types[0].0, param_types[1].0);
+                // The assigned value has the type of the target without modifiers like volatile
+                assert_eq!(
+                    module.type_registry.remove_modifier(param_types[0].0),
+                    module.type_registry.remove_modifier(param_types[1].0)
+                );
                 assert_eq!(param_types[0].1, ValueType::Lvalue);
                 param_types[0]
             }
